@@ -47,7 +47,25 @@ def class_table() -> ClassTable:
 
 
 def find_function(mod: str, qualname: str):
-    """Locate a (possibly nested) function by qualified name; `<locals>` segments are skipped."""
+    """Locate a (possibly nested) function by qualified name; `<locals>` segments are skipped.
+
+    `func@if(<test>)` selects, inside the function, the body of the if/elif arm whose test unparses to <test>: the
+    verification unit is then that block only (everything of the function outside the arm is dropped; the contract's
+    setup supplies the variables the block reads)."""
+    block = None
+    if "@if(" in qualname:
+        qualname, block = qualname.split("@if(", 1)
+        block = block[:-1]
+        found = find_function(mod, qualname)
+        if found is None:
+            return None
+        fn, src, path = found
+        want = ast.unparse(ast.parse(block, mode="eval").body)
+        for node in ast.walk(fn):
+            if isinstance(node, ast.If) and ast.unparse(node.test) == want:
+                synth = ast.FunctionDef(name=fn.name + "@if", args=ast.arguments(posonlyargs=[], args=[], kwonlyargs=[], kw_defaults=[], defaults=[]), body=node.body, decorator_list=[], lineno=node.body[0].lineno, col_offset=node.col_offset, end_lineno=node.body[-1].end_lineno, end_col_offset=node.body[-1].end_col_offset)
+                return synth, src, path
+        return None
     src, tree, path = load_module(mod)
     node: Any = tree
     for part in [p for p in qualname.split(".") if p != "<locals>"]:
@@ -135,7 +153,7 @@ def run_unit(unit: Unit, forced: Optional[int] = None) -> UnitResult:
     if loc is None:
         return UnitResult(unit, found=False, error=f"unit {unit.target} not found in {module_path(mod)}")
     fn, src, path = loc
-    seg = ast.get_source_segment(src, fn) or ""
+    seg = ast.get_source_segment(src, fn) or "\n".join(src.splitlines()[fn.lineno - 1:fn.end_lineno])
     res = UnitResult(unit, found=True, file=os.path.relpath(path, REPO), lines=(fn.lineno, fn.end_lineno), src_hash=hashlib.sha256(seg.encode()).hexdigest()[:16])
     ctx = Ctx(unit.name, class_table())
     ctx.forced_first = forced
